@@ -165,9 +165,7 @@ func (h Handler) handleError(ctx context.Context, token string) http.HandlerFunc
 		}
 
 		if token != "" {
-			if err := h.Tokens.InvalidateToken(ctx); err != nil {
-				slog.Warn("invalidating token", "error", err)
-			}
+			h.invalidateToken(ctx)
 		}
 	}
 }
@@ -238,9 +236,9 @@ func (h Handler) writeResponse(ctx context.Context, w http.ResponseWriter, msgTy
 	// Perform business logic of message handling
 	respType, respData := resp.Respond(ctx, msgType, msg)
 	if respType == protocol.ErrorMsgType {
-		if err := h.Tokens.InvalidateToken(ctx); err != nil {
-			slog.Warn("invalidating token", "error", err)
-		}
+		// Not with the request context: the error may be the very fact that
+		// the client went away, and the session must end all the same
+		h.invalidateToken(ctx)
 	}
 
 	// Encrypt TO2 messages beginning with 64
